@@ -63,6 +63,34 @@ type Ctx struct {
 	vals       map[int]interface{}
 	Calls      []CallRec
 	callMu     sync.Mutex
+	// C11 relational oracle: in "twin" mode a user method that would panic writes a placeholder where it
+	// would have panicked (and returns) instead; Twins records method and payload per placeholder.
+	PanicTwin bool
+	Twins     []TwinRec
+	methStack []string
+}
+
+// TwinRec describes one placeholder written in twin mode.
+type TwinRec struct {
+	Method  string
+	Payload *Term
+}
+
+// TwinPlaceholder is the text written for the k-th would-be panic.
+func TwinPlaceholder(k int) string { return fmt.Sprintf("@PANIC%03d@", k) }
+
+func (c *Ctx) twin(method string, payload *Term) string {
+	c.callMu.Lock()
+	defer c.callMu.Unlock()
+	c.Twins = append(c.Twins, TwinRec{method, payload})
+	return TwinPlaceholder(len(c.Twins) - 1)
+}
+
+func (c *Ctx) curMethod() string {
+	if n := len(c.methStack); n > 0 {
+		return c.methStack[n-1]
+	}
+	return ""
 }
 
 type CallRec struct {
@@ -151,6 +179,9 @@ func hasCap(t *Term, c string) bool {
 func (s *objSpec) ret(method string) string {
 	s.c.call(method, s.t, 0)
 	if len(s.t.Pan) > 0 {
+		if s.c.PanicTwin {
+			return s.c.twin(method, s.t.Pan[0])
+		}
 		panic(s.c.Value(s.t.Pan[0]))
 	}
 	return string(s.c.Subst(s.t.B))
@@ -158,11 +189,15 @@ func (s *objSpec) ret(method string) string {
 
 func (s *objSpec) safeFormat(p redact.SafePrinter, verb rune) {
 	s.c.call("SafeFormat", s.t, verb)
+	s.c.methStack = append(s.c.methStack, "SafeFormat")
+	defer func() { s.c.methStack = s.c.methStack[:len(s.c.methStack)-1] }()
 	s.c.RunScript(s.t.Scr, p, nil, verb)
 }
 
 func (s *objSpec) format(st fmt.State, verb rune) {
 	s.c.call("Format", s.t, verb)
+	s.c.methStack = append(s.c.methStack, "Format")
+	defer func() { s.c.methStack = s.c.methStack[:len(s.c.methStack)-1] }()
 	s.c.RunScript(s.t.FScr, nil, st, verb)
 }
 
@@ -187,6 +222,10 @@ func (c *Ctx) RunScript(ops []SOp, p redact.SafePrinter, st fmt.State, verb rune
 				}
 				continue
 			case "Panic":
+				if c.PanicTwin && c.curMethod() != "" {
+					io.WriteString(st, c.twin(c.curMethod(), op.Ts[0]))
+					return
+				}
 				panic(c.Value(op.Ts[0]))
 			}
 			// fallback under a foreign fmt.State
@@ -237,7 +276,13 @@ func (c *Ctx) RunScript(ops []SOp, p redact.SafePrinter, st fmt.State, verb rune
 			p.Print(c.Values(op.Ts)...)
 		case "Printf":
 			p.Printf(string(c.Subst(op.F)), c.Values(op.Ts)...)
+		case "JoinTo":
+			redact.JoinTo(p, redact.RedactableString(c.Subst(op.B)), c.Value(op.Ts[0]))
 		case "Panic":
+			if c.PanicTwin && c.curMethod() != "" {
+				p.SafeString(redact.SafeString(c.twin(c.curMethod(), op.Ts[0])))
+				return
+			}
 			panic(c.Value(op.Ts[0]))
 		case "Discover":
 		case "UnsafeErrText":
@@ -304,6 +349,12 @@ type St2uE struct {
 }
 type St2uu struct{ a, b interface{} }
 type St3EEE struct{ A, B, C interface{} }
+
+// StReg is a struct type registered as safe (capability REG on a struct term).
+type StReg struct{ A, B interface{} }
+
+func init() { redact.RegisterSafeType(reflect.TypeOf(StReg{})) }
+
 type St3EuE struct {
 	A interface{}
 	b interface{}
@@ -435,6 +486,12 @@ func (c *Ctx) build(t *Term) interface{} {
 		return m
 	case "struct":
 		v := c.Values(t.Xs)
+		if hasCap(t, "REG") {
+			if len(v) != 2 {
+				panic("registered struct terms have two fields")
+			}
+			return StReg{v[0], v[1]}
+		}
 		pat := ""
 		for _, r := range t.Ro {
 			if r {
